@@ -474,3 +474,40 @@ Theorem mount_cache_refuted :
   | None => False
   end -> False.
 Proof. vm_compute. intros H. discriminate H. Qed.
+
+(** * a directory seen through mount wrappers lists the same names at the same offsets as the plain Readdir *)
+Definition name_off (e : dirent) : string * N := (d_name e, d_off e).
+
+Lemma remap_entries_name_off m es : forall s es' s', remap_entries s m es = (es', s') -> map name_off es' = map name_off es.
+Proof.
+  induction es as [|d0 es IH]; intros s es' s' H; cbn in H.
+  - now inversion H.
+  - destruct (qid_for s m (d_qid d0)) as [q s1]. destruct (remap_entries s1 m es) as [r' s2] eqn:E2.
+    inversion H; subst. cbn. f_equal. eapply IH; eauto.
+Qed.
+
+Lemma remap_page_name_off ws : forall s es es' s', remap_page s ws es = (es', s') -> map name_off es' = map name_off es.
+Proof.
+  induction ws as [|m ws IH]; intros s es es' s' H; cbn in H.
+  - now inversion H.
+  - destruct (remap_entries s m es) as [es1 s1] eqn:E. rewrite (IH _ _ _ _ H). eapply remap_entries_name_off; eauto.
+Qed.
+
+Lemma number_from_name_off q q' l : forall start, map name_off (number_from q start l) = map name_off (number_from q' start l).
+Proof. induction l as [|n l IH]; intros start; cbn; [reflexivity|]. f_equal. apply IH. Qed.
+
+Lemma static_readdir_name_off q q' names off cnt :
+  map name_off (static_readdir q names off cnt) = map name_off (static_readdir q' names off cnt).
+Proof. unfold static_readdir. destruct (lenN names <=? off); [reflexivity|]. apply number_from_name_off. Qed.
+
+(** whatever the wrappers, the stored table or the mounts' answers: one Readdir call on a (mounted) staticfs or composefs
+    directory returns, name for name and Offset for Offset, what readdir.Readdir returns for the sorted names *)
+Theorem dir_readdir_name_off s d off cnt es s' :
+  dir_readdir s d off cnt = (es, s') ->
+  map name_off es = map name_off (static_readdir (fun _ => zero_qid) (map fst (d_ents d)) off cnt).
+Proof.
+  unfold dir_readdir. destruct (d_stored d) as [st|].
+  - intros H. rewrite (remap_page_name_off _ _ _ _ _ H). apply static_readdir_name_off.
+  - destruct (getattr_all s (d_ents d)) as [qs s1]. intros H.
+    rewrite (remap_page_name_off _ _ _ _ _ H). apply static_readdir_name_off.
+Qed.
